@@ -369,6 +369,21 @@ fn reject<T: Tier + Dom<M = Sh>>(rep: &mut Report) {
         add(format!("perspective near=far ({fov},{asp},{n})"), true, std::sync::Arc::new(move || {
             let _ = perspective(Rad(c(fov)), c(asp), c(n), c(n));
         }));
+        // two preconditions violated at once (each of them is still violated: conditions merged into one product or sum
+        // cancel here)
+        for (what, nv, fvv) in [("near<0,far<0", -1.0, -2.0), ("near<0,far<0 (far nearer)", -2.0, -0.5), ("near=0,far=0", 0.0, 0.0), ("near<0,far=0", -1.0, 0.0)] {
+            add(format!("perspective {what} ({fov},{asp})"), true, std::sync::Arc::new(move || {
+                let _ = perspective(Rad(c(fov)), c(asp), c(nv), c(fvv));
+            }));
+            add(format!("PerspectiveFov.into() {what} ({fov},{asp})"), true, std::sync::Arc::new(move || {
+                let _: Matrix4<T> = PerspectiveFov { fovy: Rad(c(fov)), aspect: c(asp), near: c(nv), far: c(fvv) }.into();
+            }));
+        }
+        for (what, fv, av) in [("fovy<0,aspect=0", -0.5, 0.0), ("fovy>pi,near<0", 4.0, 1.5)] {
+            add(format!("perspective {what} ({n},{f})"), true, std::sync::Arc::new(move || {
+                let _ = perspective(Rad(c(fv)), c(av), c(if av == 1.5 { -n } else { n }), c(f));
+            }));
+        }
         add(format!("perspective Deg fovy=180 ({asp},{n},{f})"), true, std::sync::Arc::new(move || {
             let _ = perspective(Deg(c(180.5)), c(asp), c(n), c(f));
         }));
@@ -386,6 +401,16 @@ fn reject<T: Tier + Dom<M = Sh>>(rep: &mut Report) {
         }));
         add(format!("frustum near>far ({n},{f})"), true, std::sync::Arc::new(move || {
             let _ = frustum(c(l), c(r), c(b), c(t), c(f), c(n));
+        }));
+        // two and three at once
+        add(format!("frustum left>right,bottom>top ({l},{r},{b},{t})"), true, std::sync::Arc::new(move || {
+            let _ = frustum(c(r), c(l), c(t), c(b), c(n), c(f));
+        }));
+        add(format!("frustum left>right,near>far ({l},{r},{n},{f})"), true, std::sync::Arc::new(move || {
+            let _ = frustum(c(r), c(l), c(b), c(t), c(f), c(n));
+        }));
+        add(format!("frustum all three reversed ({l},{r},{b},{t},{n},{f})"), true, std::sync::Arc::new(move || {
+            let _ = frustum(c(r), c(l), c(t), c(b), c(f), c(n));
         }));
     }
     // planar(fovy, aspect, height, near, far)
